@@ -137,17 +137,20 @@ CLAIMS.update({
                 "(Comparator, AND, ElseIf); coverage is recorded only by insertions (SeenSet.add / check contracts, "
                 "IndexedCache.check), never by lookups.",
                 note="the replay side (hit branch == miss branch under coherence) depends on IndexedCache.retrieve, which is "
-                     "outside the executor's heap model and has a recorded defect (C20); it is covered by the bounded stand-in "
-                     "'cache on vs off' only, labelled bounded. Level other: a genuine violation is recorded as a known finding "
-                     "(rule trees over two variables: a refined alternative replayed from the else-if result cache loses its "
-                     "conclusion), so no proof-level claim is made"),
+                     "outside the executor's heap model (exhaustive bounded stand-in under C20; its defect was repaired by "
+                     "db0fee5, together with the operators replaying only the most general matching entries); it is covered by "
+                     "the bounded families 'cache on vs off', 'conjunctions of disjunctions over three variables' and the "
+                     "rule-tree families only, labelled bounded. Level other: a genuine violation is recorded as a known finding "
+                     "(and_ / or_ over a condition on a flattened element replay the first element's truth value), so no "
+                     "proof-level claim is made"),
     'C20': dict(level='other', text="SeenSet.add / check / clear and IndexedCache.check are proved against the abstract view "
                 "(list of stored constraints + all_seen): check(q) <=> all_seen or some stored constraint is contained in q, "
                 "lookups are pure, add appends, clear empties. IndexedCache.insert / retrieve (nested-dict trie, recursive "
                 "generator) are outside the executor's heap model: exhaustive bounded stand-in on the real code (2 keys quick / "
-                "3 keys thorough, alphabet 2, up to 2 / 3 inserts, every lookup), which finds the recorded retrieve defect.",
-                note="level other: part bounded; known finding: retrieve follows either the concrete or the wildcard branch of "
-                     "a level, never both, so stored entries that match a lookup are missed"),
+                "3 keys thorough, alphabet 2, up to 3 inserts incl. the flat store, a clear() at every position, every lookup).",
+                note="level other: the retrieval half of the property is decided by the exhaustive bounded check only (the "
+                     "defect it found - retrieve followed either the concrete or the open branch of a level, never both - was "
+                     "repaired by db0fee5)"),
     'C12': dict(level='other', text="Branch attachment (rule.refinement, rule.alternative_or_next; every obligation from the current "
                 "source, the climb loop by invariant Top0(current_node) == Top0(current)): the new ExceptIf wraps the current "
                 "rule, the new Alternative / Next wraps the top of the whole rule (past every refinement that wraps it and every "
@@ -212,7 +215,12 @@ ORACLES = {
                     vocab=['cmp', 'name'], project=True),
             _oracle('three variables, a proper subset selected', 60, 800, nvars=3, depth=2, neg=False, vocab=['cmp', 'name'], n=2,
                     project=True),
-            _oracle('selected variables and attribute expressions, one row per assignment', 100, 1500, kind='select')],
+            _oracle('selected variables and attribute expressions, one row per assignment', 100, 1500, kind='select'),
+            _oracle('differential: and_/or_ of 2-3 operands nested three levels over three integer attributes and a list, 2-3 '
+                    'variables, four spellings each (declaration order, listing order, & | vs and_ or_, conjuncts one by one, '
+                    'domain permutation), evaluated twice', 100, 2000, kind='fuzzq'),
+            _oracle('conjunctions of disjunctions over three variables, literal-free (result caches receive entries over some '
+                    'of their keys next to entries over all of them)', 300, 4000, kind='fuzzq', shape='and_of_ors', nvars=3, nolit=True)],
     'C03': [_oracle('nested negation, one variable', 200, 3000, nvars=1, depth=3, neg=True, nested_neg=True),
             _oracle('nested negation, two variables', 100, 1500, nvars=2, depth=2, neg=True, nested_neg=True),
             _oracle('negated predicates (function and class form) and bare expressions', 150, 2000, nvars=1, depth=2, neg=True,
@@ -257,7 +265,12 @@ ORACLES = {
             _oracle('concatenate over a flatten of nested collections', 100, 1500, kind='concat', nested=True)],
     'C18': [_oracle('meaning preserving rewrites (swap, re-associate, mirror, contains/in_, declaration order, domain permutation)', 250, 4000, kind='rewrite'),
             _oracle('meaning preserving rewrites of literal-free conditions (result caches are hit)', 250, 4000, kind='rewrite', nolit=True),
-            _oracle('re-association / re-ordering of chains of three disjuncts and conjuncts over two variables', 150, 3000, kind='chain3', nolit=True)],
+            _oracle('re-association / re-ordering of chains of three disjuncts and conjuncts over two variables', 150, 3000, kind='chain3', nolit=True),
+            _oracle('differential: four spellings of nested and_/or_ queries over 2-3 variables (declaration order, listing '
+                    'order, & | vs and_ or_, mirrored comparisons, contains / in_, conjuncts one by one, domain permutation)', 150,
+                    3000, kind='fuzzq'),
+            _oracle('four spellings of conjunctions of disjunctions over three variables, literal-free', 200, 3000, kind='fuzzq',
+                    shape='and_of_ors', nvars=3, nolit=True)],
     'C11': [_oracle('infer(entity(T(a=x, b=y|y.attr, tag=const), conditions)): constants (None, falsy, iterable), falsy classes, '
                     'bodies with disjunction / negation, zero-solution bodies', 250, 4000, kind='infer'),
             _oracle('inference, conjunctive bodies only', 100, 1500, kind='infer', neg=False, depth=1)],
@@ -286,6 +299,9 @@ ORACLES = {
                     nolit=True),
             _oracle('two variables, literal-free conditions with disjunctions, cache on, evaluated twice', 200, 3000, nvars=2, depth=3,
                     neg=True, vocab=['cmp', 'name'], nolit=True),
+            _oracle('conjunctions of disjunctions over three variables, literal-free, cache on (reference = plain Python = '
+                    'cache-off reading)', 300, 4000, kind='fuzzq', shape='and_of_ors', nvars=3, nolit=True),
+            _oracle('the same, result cache off', 100, 1500, kind='fuzzq', shape='and_of_ors', nvars=3, nolit=True, caching=False),
             _oracle('rule trees over two variables, result cache on (reference = cache-off reading)', 150, 3000, kind='rdrtree',
                     nvars=2, rules=4, depth=2, n=3),
             _oracle('conditions on a flattened element, result cache on (reference = cache-off reading)', 150, 3000, kind='flatten_elem')],
